@@ -234,6 +234,7 @@ func c13Exec(path []int, pump int) (menu int, v *fw.Violation, x *c13Run, gauge 
 }
 
 func runC13(c *fw.Ctx) {
+	runSpxFamily(c, "C13")
 	thorough := c.Tier == "thorough"
 	depth := 5
 	if thorough {
